@@ -20,11 +20,11 @@ MAXDEPTH = 6
 
 
 def is_result_ty(s):
-    return s.startswith("std::result::Result<") or s.startswith("core::result::Result<")
+    return s.startswith("std::result::Result<") or s.startswith("std::result::Result<")
 
 
 def is_cf_ty(s):
-    return s.startswith("std::ops::ControlFlow<") or s.startswith("core::ops::ControlFlow<")
+    return s.startswith("std::ops::ControlFlow<") or s.startswith("std::ops::ControlFlow<")
 
 
 def proj_of(place):
@@ -85,10 +85,10 @@ def overlaps(p, q):
 CALL_SAME_ROOT = (
     "std::ops::Index::index",
     "std::ops::IndexMut::index_mut",
-    "core::ops::Index::index",
-    "core::ops::IndexMut::index_mut",
+    "std::ops::Index::index",
+    "std::ops::IndexMut::index_mut",
 )
-CALL_DEREF = ("std::ops::Deref::deref", "std::ops::DerefMut::deref_mut", "core::ops::Deref::deref", "core::ops::DerefMut::deref_mut")
+CALL_DEREF = ("std::ops::Deref::deref", "std::ops::DerefMut::deref_mut", "std::ops::Deref::deref", "std::ops::DerefMut::deref_mut")
 
 
 class Pts:
@@ -703,13 +703,13 @@ class FnEffects:
     def _is_adaptor(name):
         return name in (
             "std::ops::Try::branch",
-            "core::ops::Try::branch",
+            "std::ops::Try::branch",
             "std::result::Result::<T, E>::map_err",
             "std::result::Result::<T, E>::map",
             "std::result::Result::<T, E>::or",
-            "core::result::Result::<T, E>::map_err",
-            "core::result::Result::<T, E>::map",
-            "core::result::Result::<T, E>::or",
+            "std::result::Result::<T, E>::map_err",
+            "std::result::Result::<T, E>::map",
+            "std::result::Result::<T, E>::or",
         )
 
     def _note_assign_whole(self, p, rv):
